@@ -88,7 +88,10 @@ fn fingerprint(g: &Graph<u32, u32>, weighted: bool, x: u32) -> String {
 }
 
 pub fn observe(c: &Case) -> String {
-    let g = match c.g.build() {
+    // two cases in three see their weights divided by 10 or 7: sums that are not exact in f64, so that a reduction whose
+    // shape depends on the schedule changes the rounding
+    let den = match (c.g.nodes.len() + c.g.edges.len()) % 3 { 0 => 1.0, 1 => 10.0, _ => 7.0 };
+    let g = match if den == 1.0 { c.g.build() } else { c.g.build_divided(den) } {
         Ok(g) => g,
         Err(e) => return format!("i.build=E{}", err_code(&e.kind)),
     };
